@@ -2,5 +2,5 @@
 From Coq Require Extraction.
 From Coq Require ExtrOcamlBasic.
 From RimeV Require Import Base.Bytes Dict.Algebra Dict.PrismModel.
-Extraction "c09_model.ml" byte_of_N N_of_byte syllabary_of init_script project compile_script
+Extraction "c09_model.ml" byte_of_N N_of_byte syllabary_of init_script merge project compile_script
   kind_deletion kind_addition build get_value common_prefix_search expand_search_fuel query_spelling.
